@@ -196,6 +196,23 @@ def extract_closure_body(path, marker):
     raise LostAnchor("unbalanced closure after %r" % marker)
 
 
+def extract_fn_range(path, scopes, fn_name, start_marker, end_marker):
+    """Lines of fn `fn_name` from the line containing start_marker up to (not including) the line containing end_marker;
+    each marker must match exactly one line of the fn.  Returns (lines, first_line_no, last_line_no)."""
+    with open(path) as f:
+        lines = f.read().split("\n")
+    s, e = 0, len(lines) - 1
+    for sc in scopes:
+        s, e = find_scope(lines, sc, s, e + 1)
+    i = find_fn(lines, fn_name, s, e)
+    a, b = fn_extent(lines, i)
+    h1 = [k for k in range(a, b + 1) if start_marker in lines[k]]
+    h2 = [k for k in range(a, b + 1) if end_marker in lines[k]]
+    if len(h1) != 1 or len(h2) != 1 or h2[0] <= h1[0]:
+        raise LostAnchor("range markers %r (%d) .. %r (%d) in fn %s" % (start_marker, len(h1), end_marker, len(h2), fn_name))
+    return lines[h1[0]:h2[0]], h1[0] + 1, h2[0]
+
+
 def extract_fn_tail(path, scopes, fn_name, start_marker):
     """Lines of fn `fn_name` (inside `scopes`) from the line containing start_marker up to (not including) the fn's closing
     brace.  Returns (lines, first_line_no, last_line_no)."""
